@@ -19,7 +19,7 @@ TIME_UNIT = "logical time: captured frames (the channel has no timers)"
 ALLOW_EMPTY_STEPS = True
 
 COMPONENTS = {
-    "real": ["buidl.bcur.BCURMulti.encode/parse", "buidl.bcur.BCURSingle.encode/parse", "buidl.bcur.bcur_encode/bcur_decode",
+    "real": ["buidl.bcur.BCURMulti.encode/parse (also repeated encode() on one object)", "buidl.bcur.BCURSingle.encode/parse", "buidl.bcur.bcur_encode/bcur_decode",
              "buidl.bech32.bc32encode/bc32decode/cbor_encode/cbor_decode"],
     "stub": ["camera channel (frame loss/dup/rotation/reorder/corruption/cross-talk/relabel)", "naive and collecting receivers (harness-side frame bookkeeping)"],
 }
